@@ -102,8 +102,16 @@ fn run(ws: &[&str]) -> (String, String, String) {
             if in_domain {
                 ok &= ids.len() == n;
                 let mut set = std::collections::HashSet::new();
+                let mut prev: Option<usize> = None;
                 for id in &ids {
                     ok &= set.insert(id.raw()) && id.adapter_id() == a && id.resource_type() == t;
+                    // never reused: base values are handed out in strictly increasing order,
+                    // starting no lower than the counter
+                    ok &= match prev {
+                        None => id.base_value() as u64 >= last,
+                        Some(p) => id.base_value() > p,
+                    };
+                    prev = Some(id.base_value());
                 }
             }
             (outs.join(" "), if ok { "ok" } else { "FAIL" }.into(), if in_domain { "gen" } else { "gen,edge" }.into())
